@@ -200,7 +200,7 @@ func genSeq(cfg Config, emit Emit, mode string, nq, nt, attPct int) {
 			pos = (w.Inv + 1 + cfg.Rng.Intn(len(w.Tokens)-1)) % len(w.Tokens)
 			where = "proof"
 		}
-		sh := shapes[i%len(shapes)]
+		sh := shapes[(i/3)%len(shapes)] // independent of i%3 (direct / served, attestation strata)
 		t := &w.Tokens[pos]
 		t.Exp, t.ExpRel = nil, relOf(sh[0])
 		t.NbfRel = relOf(sh[1])
